@@ -93,6 +93,13 @@ def gen_sender(ctx, i):
         b = rng.randrange(2)
         pl = rng.randbytes(n) if b else ("ab" * (n // 2 + 1))[:n].encode()
         frag = rng.choice(["n", "n", 65535, 65536, 4096, n - 1, n, n + 1])
+        if frag == "n" and cfg.get("af") and n // cfg["af"] > 2000:
+            # a tiny autoFragmentSize would cut the message into 10^4..10^6 frames: quadratic in the list-based model
+            # and the judge, and - behind queued synchronous writes - more frames than the closing clock advance of
+            # the script drains from the send queue (the script would end with the message half sent, which the
+            # oracle rightly reports as "not all messages on the wire"; that is a property of the script, not of the
+            # code).  An explicit fragment size overrides autoFragmentSize.
+            frag = rng.choice([4096, 65535, 65536])
         big_op = f"msg,{wsgen.hx(pl)},{b},{frag},0"
         if rng.random() < 0.5:
             ops.insert(0, big_op)
